@@ -2,7 +2,8 @@ SPECIFICATION Spec
 CONSTANTS
   Lits <- Lits2
   Ops = {"+", "*", "-"}
-  Forms = {"lit", "ref", "neg", "rl", "lr", "rr"}
+  Forms = {"lit", "ref", "neg", "rl", "lr", "rr", "cc"}
+  OpenKinds = {"open", "openC", "openU", "openCS"}
   Kinds = {"enumE", "enumI", "const", "constexpr", "macroP", "macroB", "array"}
   MaxDecls = 3
   MaxEnums = 1
@@ -10,5 +11,7 @@ INVARIANT ImplicitOK
 INVARIANT PrimaryOK
 INVARIANT SpliceOK
 INVARIANT NestingOK
+INVARIANT MuOK
+INVARIANT RangeOK
 CONSTRAINT DumpConstraint
 CHECK_DEADLOCK FALSE
